@@ -586,6 +586,7 @@ class C14(Base):
     BATCH = 8
     SIZES = {"quick": (48, 0), "thorough": (200, 0)}
     SMAX = {"quick": 10, "thorough": 24}
+    LARGE = {"quick": 0.03, "thorough": 0.05}
     RULE = ("run-groups: fixed (N, trajectory, total units s, s up to N+2 so "
             "that clamping is exercised), one Multistage schedule for every "
             "split r = 0..s, d = s - r (plus over-declared splits), each "
@@ -610,6 +611,16 @@ class C14(Base):
             s = max(1, rng.choice((N - 2, N - 1, N, N + 2)))
             s = min(s, self.SMAX[tier] + 6)
         trajs = [rng.choice(("maximum", "revolve"))]
+        if rng.random() < self.LARGE[tier]:
+            # large stratum: many steps and many units, a sample of splits
+            N = rng.randint(257, 700)
+            s = rng.randint(21, 40)
+            traj = trajs[0]
+            rs = sorted({0, s, rng.randint(1, s - 1), rng.randint(1, s - 1),
+                         rng.randint(1, s - 1), s // 2})
+            return Plan([({"cls": "Multistage", "N": N,
+                           "p": {"r": r, "d": s - r, "traj": traj}}, 1,
+                          "every") for r in rs])
         if rng.random() < 0.5:
             # both trajectories in one world (the checker groups by
             # trajectory); construction order shuffled
